@@ -14,6 +14,8 @@ CONSTANTS
     ReaderDone = FALSE
     AlertCloseOnErr = TRUE
     UdfStopAborts = FALSE
+    NWaiters = 0
+    WaitHoldsMu = TRUE
     HookNeedsTmLock = FALSE
 INVARIANTS
     TypeOK
